@@ -403,6 +403,11 @@ def scrape_pst():
     overwrites = bool(re.search(r"Rule::COMMENT => \{\s*comment = Documentation::try_from\(rule\)\.ok\(\);", t))
     if facts["pst_comment_keeps_doc"] == overwrites:
         problems.append("pst.rs: how a COMMENT pair updates the pending documentation is not recognised")
+    checked = bool(re.search(r"fn array_size\(size: Pair<'_, Rule>\) -> Count \{\s*size\.as_str\(\)\.parse\(\)\.unwrap_or_else\(\|_\| \{\s*idlc_errors::unrecoverable!", t)) and len(re.findall(r"array_size\(ast_unwrap!\(", t)) == 3
+    unchecked = len(re.findall(r"ast_unwrap!\([^;]*\.as_str\(\)\.parse\(\)\)", t)) == 3
+    facts["pst_array_size_checked"] = checked
+    if checked == unchecked:
+        problems.append("pst.rs: how array sizes are parsed is not recognised")
     if helper and n == 7:
         facts["pst_skips_comments"] = True
     elif not helper and n == 18:
